@@ -408,3 +408,328 @@ func ruleTxEnd(c *Ctx, r *Rep, tier string) {
 	}
 	r.Check(why == "", rule, "bgzf.(*Tx).End#reports-lastchunk", c.Pos(fn.Pos()), "{Tx.begin, Reader.lastChunk.End}, unmodified", "the transaction's chunk is not the Reader's own interval:"+why+" the replay side compares the raw LastChunk().End with it, so a chunk from Begin(i) to this End(j) yields other records than i..j")
 }
+
+// CIGAR-ITEMWISE (C06): what Cigar.String writes for one operation depends on
+// that operation only. Every argument of every call made inside the loop is
+// free of loop-carried values (phis) other than the cursor used to index the
+// receiver. A formatter that carries a previous type or an accumulated length
+// round its loop (seed C06-p: runs of one type written as one operation) emits
+// text that does not parse back to the same list.
+func ruleCigarItemwise(c *Ctx, r *Rep, tier string) {
+	rule := "CIGAR-ITEMWISE"
+	fn := c.Func("sam", "Cigar.String")
+	inLoop := func(b *ssa.BasicBlock) bool {
+		seen := map[*ssa.BasicBlock]bool{}
+		work := append([]*ssa.BasicBlock(nil), b.Succs...)
+		for len(work) > 0 {
+			x := work[len(work)-1]
+			work = work[:len(work)-1]
+			if x == b {
+				return true
+			}
+			if seen[x] {
+				continue
+			}
+			seen[x] = true
+			work = append(work, x.Succs...)
+		}
+		return false
+	}
+	var dep func(v ssa.Value, viaIndex bool, d int, seen map[ssa.Value]bool) string
+	dep = func(v ssa.Value, viaIndex bool, d int, seen map[ssa.Value]bool) string {
+		if v == nil {
+			return ""
+		}
+		if d > 14 {
+			return "a value too deep to follow (undecided)"
+		}
+		switch x := v.(type) {
+		case *ssa.Const, *ssa.Parameter, *ssa.Global, *ssa.Function, *ssa.Builtin, *ssa.FreeVar:
+			return ""
+		case *ssa.Phi:
+			if viaIndex {
+				return ""
+			}
+			return "the loop-carried value " + x.Name() + " (" + x.Comment + ")"
+		case *ssa.IndexAddr:
+			if w := dep(x.X, false, d+1, seen); w != "" {
+				return w
+			}
+			return dep(x.Index, true, d+1, seen)
+		case *ssa.Index:
+			if w := dep(x.X, false, d+1, seen); w != "" {
+				return w
+			}
+			return dep(x.Index, true, d+1, seen)
+		case *ssa.BinOp:
+			_, kx := constInt(x.X)
+			_, ky := constInt(x.Y)
+			via := viaIndex && (kx || ky) && (x.Op == token.ADD || x.Op == token.SUB)
+			if w := dep(x.X, via, d+1, seen); w != "" {
+				return w
+			}
+			return dep(x.Y, via, d+1, seen)
+		case *ssa.Alloc:
+			if seen[x] {
+				return ""
+			}
+			seen[x] = true
+			var addrs []ssa.Value = []ssa.Value{x}
+			for i := 0; i < len(addrs); i++ {
+				for _, ref := range *addrs[i].Referrers() {
+					switch y := ref.(type) {
+					case *ssa.Store:
+						if y.Addr == addrs[i] {
+							if w := dep(y.Val, false, d+1, seen); w != "" {
+								return w
+							}
+						}
+					case *ssa.IndexAddr:
+						if y.X == addrs[i] {
+							addrs = append(addrs, y)
+						}
+					case *ssa.FieldAddr:
+						if y.X == addrs[i] {
+							addrs = append(addrs, y)
+						}
+					}
+				}
+			}
+			return ""
+		case *ssa.Call:
+			for _, a := range x.Call.Args {
+				if w := dep(a, false, d+1, seen); w != "" {
+					return w
+				}
+			}
+			if x.Call.IsInvoke() {
+				return dep(x.Call.Value, false, d+1, seen)
+			}
+			return ""
+		}
+		if ins, ok := v.(ssa.Instruction); ok {
+			for _, op := range ins.Operands(nil) {
+				if w := dep(*op, false, d+1, seen); w != "" {
+					return w
+				}
+			}
+		}
+		return ""
+	}
+	n := 0
+	why := ""
+	allInstrs(fn, func(ins ssa.Instruction) {
+		call, ok := ins.(*ssa.Call)
+		if !ok || !inLoop(call.Block()) {
+			return
+		}
+		n++
+		args := append([]ssa.Value(nil), call.Call.Args...)
+		if call.Call.IsInvoke() {
+			args = append(args, call.Call.Value)
+		}
+		for _, a := range args {
+			if w := dep(a, false, 0, map[ssa.Value]bool{}); w != "" {
+				why += " the call at " + c.Pos(call.Pos()) + " is given " + w + ";"
+				break
+			}
+		}
+	})
+	r.Instance(rule, 1)
+	if n == 0 {
+		why = " no call inside a loop found in Cigar.String: the formatter is written in a way this rule does not understand (undecided)"
+	}
+	r.Check(why == "", rule, "sam.Cigar.String#itemwise", c.Pos(fn.Pos()), fmt.Sprintf("%d call(s) in the loop, each fed by the current operation only", n), "what is written for an operation depends on more than that operation:"+why+" the text no longer lists the operations one by one, and ParseCigar gives back another list")
+}
+
+// MEMO-COHERENT (C05, C07): the reporting methods of the header item types
+// (String of Reference, ReadGroup, Program) write nothing into their receiver –
+// or, where one keeps what it computed in a field (a memo), every function that
+// assigns another field of an existing item of that type assigns the memo field
+// too. Seed C05-p: Reference.String keeps its @SQ line; SetName, SetLen and Set
+// clear it, AddReference's merge branch assigns the fields directly and does not:
+// a header marshalled once, merged into, and written again carries the old line.
+func ruleMemoCoherent(c *Ctx, r *Rep, tier string) {
+	rule := "MEMO-COHERENT"
+	for _, tn := range []string{"Reference", "ReadGroup", "Program"} {
+		named := c.Named("sam", tn)
+		st, ok := named.Underlying().(*types.Struct)
+		if !ok {
+			unresolved("sam.%s is not a struct", tn)
+		}
+		isField := map[*types.Var]bool{}
+		for i := 0; i < st.NumFields(); i++ {
+			isField[st.Field(i)] = true
+		}
+		var strFn *ssa.Function
+		for _, cand := range []string{"(*" + tn + ").String", tn + ".String"} {
+			if f := c.FuncOpt("sam", cand); f != nil && f.Blocks != nil {
+				strFn = f
+				break
+			}
+		}
+		if strFn == nil {
+			unresolved("sam.%s has no String method", tn)
+		}
+		memo := map[*types.Var]bool{}
+		rendered := map[*types.Var]bool{}
+		var visit func(f *ssa.Function, d int)
+		visit = func(f *ssa.Function, d int) {
+			if f == nil || f.Blocks == nil || d > 2 {
+				return
+			}
+			allInstrs(f, func(ins ssa.Instruction) {
+				switch x := ins.(type) {
+				case *ssa.UnOp:
+					if fa, ok := x.X.(*ssa.FieldAddr); ok && x.Op == token.MUL && isField[fieldVarOfAddr(fa)] {
+						rendered[fieldVarOfAddr(fa)] = true
+					}
+				case *ssa.Store:
+					if fa, ok := x.Addr.(*ssa.FieldAddr); ok && isField[fieldVarOfAddr(fa)] {
+						if _, fresh := origin(fa.X).(*ssa.Alloc); !fresh {
+							memo[fieldVarOfAddr(fa)] = true
+						}
+					}
+				case *ssa.Call:
+					if g := staticCallee(&x.Call); g != nil && g.Pkg == f.Pkg && g.Signature.Recv() != nil && len(x.Call.Args) > 0 && origin(x.Call.Args[0]) == ssa.Value(f.Params[0]) {
+						visit(g, d+1)
+					}
+				}
+			})
+		}
+		visit(strFn, 0)
+		r.Instance(rule, 1)
+		key := "sam." + tn + ".String#memo"
+		if len(memo) == 0 {
+			r.Pass(rule, key, c.Pos(strFn.Pos()), "writes no field of its receiver")
+			continue
+		}
+		why := ""
+		for _, f := range c.FuncsIn("sam") {
+			var all []*ssa.Function
+			var add func(g *ssa.Function)
+			add = func(g *ssa.Function) {
+				all = append(all, g)
+				for _, a := range g.AnonFuncs {
+					add(a)
+				}
+			}
+			add(f)
+			for _, g := range all {
+				if g.Blocks == nil || g == strFn {
+					continue
+				}
+				other := map[ssa.Value]token.Pos{}
+				clears := map[ssa.Value]bool{}
+				allInstrs(g, func(ins ssa.Instruction) {
+					x, ok := ins.(*ssa.Store)
+					if !ok {
+						return
+					}
+					fa, ok := x.Addr.(*ssa.FieldAddr)
+					if !ok || !isField[fieldVarOfAddr(fa)] {
+						return
+					}
+					base := origin(fa.X)
+					if freshObject(base, 0, map[ssa.Value]bool{}) {
+						return
+					}
+					if memo[fieldVarOfAddr(fa)] {
+						clears[base] = true
+					} else if !rendered[fieldVarOfAddr(fa)] {
+						// a field String does not read (id, owner): the kept text does not depend on it
+					} else if _, seen := other[base]; !seen {
+						other[base] = x.Pos()
+					}
+				})
+				for base, pos := range other {
+					if !clears[base] {
+						why += " " + c.FnName(g) + " assigns a field of an existing " + tn + " at " + c.Pos(pos) + " and leaves the kept text as it was;"
+					}
+				}
+			}
+		}
+		r.Check(why == "", rule, key, c.Pos(strFn.Pos()), "every writer of the type's fields writes the kept field too", "String keeps what it computed in the receiver, and not every writer of the other fields renews it:"+why+" the next String (and so MarshalText, the BAM header text) reports the old values")
+	}
+}
+
+// freshObject: v is an object made in this function – an allocation, or an
+// element of a local slice into which only such allocations were put.
+func freshObject(v ssa.Value, d int, seen map[ssa.Value]bool) bool {
+	if d > 8 || v == nil {
+		return false
+	}
+	if seen[v] {
+		return true
+	}
+	seen[v] = true
+	switch x := v.(type) {
+	case *ssa.Alloc:
+		return true
+	case *ssa.UnOp:
+		if x.Op != token.MUL {
+			return false
+		}
+		if ia, ok := x.X.(*ssa.IndexAddr); ok {
+			return freshSlice(ia.X, d+1, seen)
+		}
+	case *ssa.Phi:
+		for _, e := range x.Edges {
+			if !freshObject(e, d+1, seen) {
+				return false
+			}
+		}
+		return true
+	}
+	return false
+}
+
+func freshSlice(v ssa.Value, d int, seen map[ssa.Value]bool) bool {
+	if d > 8 || v == nil {
+		return false
+	}
+	if seen[v] {
+		return true
+	}
+	seen[v] = true
+	switch x := v.(type) {
+	case *ssa.MakeSlice:
+		return true
+	case *ssa.Phi:
+		for _, e := range x.Edges {
+			if !freshSlice(e, d+1, seen) {
+				return false
+			}
+		}
+		return true
+	case *ssa.Slice:
+		return freshSlice(x.X, d+1, seen)
+	case *ssa.Call:
+		cc, ok := isBuiltinCall(x, "append")
+		if !ok || len(cc.Args) != 2 || !freshSlice(cc.Args[0], d+1, seen) {
+			return false
+		}
+		// the appended elements: a slice of a local array whose stores are fresh objects
+		sl, ok := cc.Args[1].(*ssa.Slice)
+		if !ok {
+			return false
+		}
+		arr, ok := sl.X.(*ssa.Alloc)
+		if !ok {
+			return false
+		}
+		for _, ref := range *arr.Referrers() {
+			if ia, ok := ref.(*ssa.IndexAddr); ok {
+				for _, r2 := range *ia.Referrers() {
+					if st, ok := r2.(*ssa.Store); ok && st.Addr == ssa.Value(ia) {
+						if _, isAlloc := origin(st.Val).(*ssa.Alloc); !isAlloc {
+							return false
+						}
+					}
+				}
+			}
+		}
+		return true
+	}
+	return false
+}
